@@ -62,7 +62,20 @@ def run(ctx):
         entries.append((ctx.prog.func(qn), io_ok))
     lemma_funcs = lemmas_collect(ctx)
     eng.analyse([f for f, _ in entries] + lemma_funcs)
-    r0_lemmas(ctx, eng, lemma_funcs)
+    # a callable value can only be called on a read-only path if it is created on one: lambdas / nested functions of functions
+    # that no read-only entry point reaches (the import path, the command line) are not held to the lemma
+    reach_pre = set()
+    for f_, _ in entries:
+        reach_pre |= {id(g.node) for g in eng.reachable(f_)}
+
+    def on_read_only_path(g):
+        o = g.outer
+        while o is not None:
+            if id(o.node) in reach_pre:
+                return True
+            o = o.outer
+        return False
+    r0_lemmas(ctx, eng, [g for g in lemma_funcs if g.kind != 'callable-value' or on_read_only_path(g)])
     # re-run with the lemma verdict (callable values pure or not)
     reach_total = set()
     for f, io_ok in entries:
